@@ -17,9 +17,18 @@
      count58               number of ':' bytes
      plainc c              32 < c < 128 and c is none of : / \ ? # @ [ ]   (Proofs/C16_RT.v)
      plain_text t          t <> [] and every byte of t satisfies plainc (the texts of domains and IPv4 hosts)
+     v6c c                 32 < c < 128 and c is none of / \ ? # @ [ ]   (':' allowed; Proofs/C16_RT6.v)
+     bracket_text t        t = "[" body "]" with every byte of body satisfying v6c (the texts of IPv6 hosts)
+     url_parse dbg hp ho hd p   Url::parse(p): the parser model (Model/Parser.v) without base and without
+                           encoding override, on the chars() of the byte string p
+     Host.host_parse idna, Host.host_display   the host MODEL (Model/Host.v, property C09), idna arbitrary
+     C09_Host.IdnaOK idna  the hypothesis of C09 on the IDNA function: outputs are ASCII outside the deny list
+                           host.rs passes, are fixed points, and dotted-decimal text is mapped to itself
    Strings are lists of UTF-8 bytes. *)
 From RU Require Import Base.Prelude Base.Utf8 Gen.Tables Model.HostT Model.UrlRecord Model.Parser Model.Origin
-  Proofs.C16_Conc Proofs.C16_Origin Proofs.C16_RT Proofs.C16_Example.
+  Proofs.C16_Conc Proofs.C16_Origin Proofs.C16_RT Proofs.C16_Example Proofs.C16_Colons Proofs.C16_RT6
+  Proofs.C16_RT6Model Proofs.C16_RTParsed.
+From RU Require Model.Host Proofs.C09_Host.
 
 (* the code as it is today increments COUNTER with one atomic fetch_add (re-proved against the
    regenerated table on every run; a load/store pair makes this fail) *)
@@ -143,7 +152,7 @@ Print Assumptions C16_tuple_schemes.
 
 (* blob: the origin of a blob URL is the origin of the URL its path parses to (same origin, same
    counter afterwards) when the path parses, a fresh opaque origin when it does not; the two fuel
-   premises are discharged by C16_fuel *)
+   premises are discharged by C16_fuel (C16_blob_total below is the statement without them) *)
 Theorem C16_blob : forall dbg hp ho hd c u p,
   scheme u = Some s_blob -> path u = Some p ->
   match url_parse dbg hp ho hd p with
@@ -167,7 +176,8 @@ Print Assumptions C16_blob.
    FULL statement: for every record, whatever the host functions. *)
 Definition C16_fuel_statement : Prop :=
   forall dbg hp ho hd c u, url_origin dbg hp ho hd c u <> OFuel.
-(* PROVED relative to one fact about the parser model, stated as an explicit premise: a URL with scheme
+(* FIRST PROVED relative to one fact about the parser model, stated as an explicit premise (the premise is
+   now a theorem - C16_parse_colons - and the full statement is C16_fuel below): a URL with scheme
    blob parsed from a text has a path with fewer ':' than that text (each level of nesting consumes the
    ':' of a "blob:" prefix; nothing adds a ':' to a path).  The length of the inner serialization is NOT
    a measure: percent-encoding can make it longer than the outer one (see the Example). *)
@@ -181,6 +191,57 @@ Check C16_fuel_partial : forall dbg hp ho hd,
                   (count58 p' < count58 p)%nat) ->
   forall c u, url_origin dbg hp ho hd c u <> OFuel.
 Print Assumptions C16_fuel_partial.
+
+(* THE PARSER FACT, PROVED for the parser model and arbitrary host functions: Url::parse(p) = Ok(v), v not a
+   file URL  ==>  the path of v has fewer ':' than p.  (chars() makes no ':' out of other bytes; the scheme state
+   consumes one ':'; percent-encoding writes '%' and hex digits or copies; the path states append encoded input
+   and '/' or cut behind path_start; the "/." marker and the host text - whatever Display writes - are in front
+   of the path.)  With it comes: the scheme slice of the result is the scheme that was read, for every scheme
+   type - which is how "scheme v = blob" selects the non-special branch. *)
+Theorem C16_parse_colons : forall dbg hp ho hd p v s p',
+  url_parse dbg hp ho hd p = POk v -> scheme v = Some s -> s <> s_file -> path v = Some p' ->
+  (count58 p' < count58 p)%nat.
+Proof. intros dbg hp ho hd p v s p' Hv Hs Hn Hp. exact (url_parse_colons dbg hp ho hd p v Hv s Hs Hn p' Hp). Qed.
+Check C16_parse_colons : forall dbg hp ho hd p v s p',
+  url_parse dbg hp ho hd p = POk v -> scheme v = Some s -> s <> s_file -> path v = Some p' ->
+  (count58 p' < count58 p)%nat.
+Print Assumptions C16_parse_colons.
+
+(* the exclusion of file URLs is necessary: the drive-letter quirk turns '|' into ':' - file:/C|/ (one ':')
+   parses to a URL with the path /C:/ (one ':').  Not a defect (the Standard does the same); file URLs never
+   reach the blob recursion. *)
+Theorem C16_parse_colons_file_refuted :
+  exists v, toy_parse t_file_c_bar = POk v /\ scheme v = Some s_file /\ path v = Some t_path_c_colon
+            /\ ~ (count58 t_path_c_colon < count58 t_file_c_bar)%nat.
+Proof. exact colons_file_witness. Qed.
+Check C16_parse_colons_file_refuted :
+  exists v, toy_parse t_file_c_bar = POk v /\ scheme v = Some s_file /\ path v = Some t_path_c_colon
+            /\ ~ (count58 t_path_c_colon < count58 t_file_c_bar)%nat.
+Print Assumptions C16_parse_colons_file_refuted.
+
+(* FULL: the fuel never runs out - for every record, every counter, whatever the host functions *)
+Theorem C16_fuel : C16_fuel_statement.
+Proof. exact fuel_always_enough. Qed.
+Check C16_fuel : forall dbg hp ho hd c u, url_origin dbg hp ho hd c u <> OFuel.
+Print Assumptions C16_fuel.
+
+(* hence C16_blob without its two fuel premises *)
+Theorem C16_blob_total : forall dbg hp ho hd c u p,
+  scheme u = Some s_blob -> path u = Some p ->
+  match url_parse dbg hp ho hd p with
+  | POk v => url_origin dbg hp ho hd c u = url_origin dbg hp ho hd c v
+  | PErr _ => url_origin dbg hp ho hd c u = new_opaque c
+  | PPanic => url_origin dbg hp ho hd c u = OPanic
+  end.
+Proof. exact blob_origin_total. Qed.
+Check C16_blob_total : forall dbg hp ho hd c u p,
+  scheme u = Some s_blob -> path u = Some p ->
+  match url_parse dbg hp ho hd p with
+  | POk v => url_origin dbg hp ho hd c u = url_origin dbg hp ho hd c v
+  | PErr _ => url_origin dbg hp ho hd c u = new_opaque c
+  | PPanic => url_origin dbg hp ho hd c u = OPanic
+  end.
+Print Assumptions C16_blob_total.
 
 (* opaque kinds: file URLs, URLs whose scheme is neither blob nor one of the five, and blob URLs whose
    path does not parse get Origin::new_opaque(); with the regenerated fetch_add that is the identity
@@ -265,7 +326,7 @@ Print Assumptions C16_rt_partial.
    and the text is shorter than 2^32, the ASCII serialization parses to a URL whose origin is (s, h, p) again;
    the same for the Unicode serialization when the ToUnicode form of the domain is plain ASCII as well and
    parses back to h (C12).  Every port below 2^16 is read back from its decimal text (finite sweep).
-   Not covered: IPv6 hosts and non-ASCII Unicode forms (C16_rt_statement). *)
+   Not covered here: IPv6 hosts (C16_rt_bracket, C16_rt_ipv6_model below) and non-ASCII Unicode forms. *)
 Theorem C16_rt_plain : forall dbg hp ho hd tu s h p,
   In s [s_ftp; s_http; s_https; s_ws; s_wss] -> p <= 65535 ->
   plain_text (host_fmt hd h) -> hd h = host_fmt hd h -> hp (host_fmt hd h) = Ok h ->
@@ -286,6 +347,152 @@ Check C16_rt_plain : forall dbg hp ho hd tu s h p,
       exists w, url_parse dbg hp ho hd (unicode_serialization hd tu (Tuple s h p)) = POk w
                 /\ forall f k, url_origin_fuel dbg hp ho hd f k w = OOk (Tuple s h p) k).
 Print Assumptions C16_rt_plain.
+
+(* C16_rt_statement in its generality - ARBITRARY host functions that are merely inverse on the host of the
+   origin - is FALSE: if Host::parse may return a domain whose text contains '/', the serialization is cut at
+   that '/' when parsed again.  Witness (stand-in functions: "x", "a/b" -> Domain("a/b"); "a" -> Domain("z")):
+   https://x/ has the origin (https, a/b, 443), serialized https://a/b, which parses to a URL with the origin
+   (https, z, 443).  The real Host::parse never returns such a domain (C09_domain): a fact about the statement,
+   not a defect of the crate.  The premises plain_text / bracket_text of C16_rt_plain / C16_rt_bracket are what
+   excludes it; they hold for everything the host model returns. *)
+Theorem C16_rt_refuted : ~ C16_rt_statement.
+Proof. exact rt_full_refuted. Qed.
+Check C16_rt_refuted : ~ C16_rt_statement.
+Print Assumptions C16_rt_refuted.
+
+(* PROVED, the parser half included, for every tuple origin (s, h, p) whose host text is bracketed: "[" body "]",
+   body printable ASCII without / \ ? # @ [ ] - ':' allowed - i.e. IPv6 hosts: inside the brackets the host state
+   of the parser does not stop at ':'.  Same premises as C16_rt_plain (Display and Host::parse inverse on this
+   host, C09; text shorter than 2^32).  For a host that is not a domain the Unicode serialization is the ASCII one. *)
+Theorem C16_rt_bracket : forall dbg hp ho hd tu s h p,
+  In s [s_ftp; s_http; s_https; s_ws; s_wss] -> p <= 65535 ->
+  bracket_text (host_fmt hd h) -> hd h = host_fmt hd h -> hp (host_fmt hd h) = Ok h ->
+  nlen (ascii_serialization hd (Tuple s h p)) < U32_MAX_P ->
+  (exists w, url_parse dbg hp ho hd (ascii_serialization hd (Tuple s h p)) = POk w
+             /\ forall f k, url_origin_fuel dbg hp ho hd f k w = OOk (Tuple s h p) k)
+  /\ ((forall d, h <> HDomain d) ->
+      exists w, url_parse dbg hp ho hd (unicode_serialization hd tu (Tuple s h p)) = POk w
+                /\ forall f k, url_origin_fuel dbg hp ho hd f k w = OOk (Tuple s h p) k).
+Proof. exact rt_bracket. Qed.
+Check C16_rt_bracket : forall dbg hp ho hd tu s h p,
+  In s [s_ftp; s_http; s_https; s_ws; s_wss] -> p <= 65535 ->
+  bracket_text (host_fmt hd h) -> hd h = host_fmt hd h -> hp (host_fmt hd h) = Ok h ->
+  nlen (ascii_serialization hd (Tuple s h p)) < U32_MAX_P ->
+  (exists w, url_parse dbg hp ho hd (ascii_serialization hd (Tuple s h p)) = POk w
+             /\ forall f k, url_origin_fuel dbg hp ho hd f k w = OOk (Tuple s h p) k)
+  /\ ((forall d, h <> HDomain d) ->
+      exists w, url_parse dbg hp ho hd (unicode_serialization hd tu (Tuple s h p)) = POk w
+                /\ forall f k, url_origin_fuel dbg hp ho hd f k w = OOk (Tuple s h p) k).
+Print Assumptions C16_rt_bracket.
+
+(* IPv6, NO premise left about the host functions: with Host::parse and Display of the host MODEL (Model/Host.v,
+   any IDNA function, any Host::parse_opaque), for EVERY IPv6 address a (eight 16-bit pieces), every one of the
+   five schemes and every port, both serializations of (s, Ipv6(a), p) parse - through the parser model - to a
+   URL whose origin is (s, Ipv6(a), p) again.  (Display writes "[" hex digits and ':' "]", at most 65 bytes;
+   Host::parse inverts it on all 2^128 addresses - C09_ipv6_rt.) *)
+Theorem C16_rt_ipv6_model : forall dbg idna ho tu s a p,
+  In s [s_ftp; s_http; s_https; s_ws; s_wss] -> p <= 65535 ->
+  length a = 8%nat -> Forall (fun x => x < 65536) a ->
+  (exists w, url_parse dbg (Host.host_parse idna) ho Host.host_display
+               (ascii_serialization Host.host_display (Tuple s (HIpv6 a) p)) = POk w
+             /\ forall f k, url_origin_fuel dbg (Host.host_parse idna) ho Host.host_display f k w
+                            = OOk (Tuple s (HIpv6 a) p) k)
+  /\ (exists w, url_parse dbg (Host.host_parse idna) ho Host.host_display
+                  (unicode_serialization Host.host_display tu (Tuple s (HIpv6 a) p)) = POk w
+                /\ forall f k, url_origin_fuel dbg (Host.host_parse idna) ho Host.host_display f k w
+                               = OOk (Tuple s (HIpv6 a) p) k).
+Proof. exact rt_ipv6_model. Qed.
+Check C16_rt_ipv6_model : forall dbg idna ho tu s a p,
+  In s [s_ftp; s_http; s_https; s_ws; s_wss] -> p <= 65535 ->
+  length a = 8%nat -> Forall (fun x => x < 65536) a ->
+  (exists w, url_parse dbg (Host.host_parse idna) ho Host.host_display
+               (ascii_serialization Host.host_display (Tuple s (HIpv6 a) p)) = POk w
+             /\ forall f k, url_origin_fuel dbg (Host.host_parse idna) ho Host.host_display f k w
+                            = OOk (Tuple s (HIpv6 a) p) k)
+  /\ (exists w, url_parse dbg (Host.host_parse idna) ho Host.host_display
+                  (unicode_serialization Host.host_display tu (Tuple s (HIpv6 a) p)) = POk w
+                /\ forall f k, url_origin_fuel dbg (Host.host_parse idna) ho Host.host_display f k w
+                               = OOk (Tuple s (HIpv6 a) p) k).
+Print Assumptions C16_rt_ipv6_model.
+
+(* THE STRONGEST TRUE FORM of the ASCII half of C16_rt_statement for arbitrary host functions: for the origin o of
+   ANY result of Url::parse (parser model), if o is a tuple its ASCII serialization parses to a URL whose origin is
+   o - provided Display writes a domain as it is and every host that Host::parse RETURNS has a plain or bracketed
+   text which Display writes and Host::parse reads back as the same host.  That the scheme is one of the five,
+   that the port is a u16 and that the host of the origin was returned by Host::parse are PROVED for origins of
+   parse results (through the blob recursion), no longer assumed. *)
+Theorem C16_rt_parsed : forall dbg hp ho hd input u c o c',
+  (forall d, hd (HDomain d) = d) ->
+  (forall t h, hp t = Ok h ->
+     (plain_text (host_fmt hd h) \/ bracket_text (host_fmt hd h))
+     /\ hd h = host_fmt hd h /\ hp (host_fmt hd h) = Ok h) ->
+  url_parse dbg hp ho hd input = POk u -> url_origin dbg hp ho hd c u = OOk o c' -> is_tuple o = true ->
+  nlen (ascii_serialization hd o) < U32_MAX_P ->
+  exists w, url_parse dbg hp ho hd (ascii_serialization hd o) = POk w
+            /\ url_origin dbg hp ho hd c' w = OOk o c'.
+Proof.
+  intros dbg hp ho hd input u c o c' Hdom HR. exact (rt_parsed dbg hp ho hd Hdom input u c o c' HR).
+Qed.
+Check C16_rt_parsed : forall dbg hp ho hd input u c o c',
+  (forall d, hd (HDomain d) = d) ->
+  (forall t h, hp t = Ok h ->
+     (plain_text (host_fmt hd h) \/ bracket_text (host_fmt hd h))
+     /\ hd h = host_fmt hd h /\ hp (host_fmt hd h) = Ok h) ->
+  url_parse dbg hp ho hd input = POk u -> url_origin dbg hp ho hd c u = OOk o c' -> is_tuple o = true ->
+  nlen (ascii_serialization hd o) < U32_MAX_P ->
+  exists w, url_parse dbg hp ho hd (ascii_serialization hd o) = POk w
+            /\ url_origin dbg hp ho hd c' w = OOk o c'.
+Print Assumptions C16_rt_parsed.
+
+(* the Unicode serialization of the origin of a parse result, same premises: it is the ASCII one for IPv4 / IPv6
+   hosts; for a domain the round trip holds when the ToUnicode form is plain ASCII and Host::parse reads it back as
+   the same host (C12).  Not covered: non-ASCII ToUnicode forms. *)
+Theorem C16_rt_parsed_unicode : forall dbg hp ho hd tu input u c s h p c',
+  (forall d, hd (HDomain d) = d) ->
+  (forall t h, hp t = Ok h ->
+     (plain_text (host_fmt hd h) \/ bracket_text (host_fmt hd h))
+     /\ hd h = host_fmt hd h /\ hp (host_fmt hd h) = Ok h) ->
+  url_parse dbg hp ho hd input = POk u -> url_origin dbg hp ho hd c u = OOk (Tuple s h p) c' ->
+  nlen (ascii_serialization hd (Tuple s h p)) < U32_MAX_P ->
+  match h with HDomain d => plain_text (tu d) /\ hp (tu d) = Ok h | _ => True end ->
+  exists w, url_parse dbg hp ho hd (unicode_serialization hd tu (Tuple s h p)) = POk w
+            /\ url_origin dbg hp ho hd c' w = OOk (Tuple s h p) c'.
+Proof.
+  intros dbg hp ho hd tu input u c s h p c' Hdom HR. exact (rt_parsed_unicode dbg hp ho hd Hdom tu input u c s h p c' HR).
+Qed.
+Check C16_rt_parsed_unicode : forall dbg hp ho hd tu input u c s h p c',
+  (forall d, hd (HDomain d) = d) ->
+  (forall t h, hp t = Ok h ->
+     (plain_text (host_fmt hd h) \/ bracket_text (host_fmt hd h))
+     /\ hd h = host_fmt hd h /\ hp (host_fmt hd h) = Ok h) ->
+  url_parse dbg hp ho hd input = POk u -> url_origin dbg hp ho hd c u = OOk (Tuple s h p) c' ->
+  nlen (ascii_serialization hd (Tuple s h p)) < U32_MAX_P ->
+  match h with HDomain d => plain_text (tu d) /\ hp (tu d) = Ok h | _ => True end ->
+  exists w, url_parse dbg hp ho hd (unicode_serialization hd tu (Tuple s h p)) = POk w
+            /\ url_origin dbg hp ho hd c' w = OOk (Tuple s h p) c'.
+Print Assumptions C16_rt_parsed_unicode.
+
+(* ... and both premises hold for the host MODEL relative to C09's hypothesis on the IDNA function (domains it
+   returns are lower-case ASCII without forbidden code points, IPv4 texts are dotted decimal, IPv6 texts bracketed;
+   Display/parse round trip = C09_display_rt).  So: parser model + host model, ANY input, ANY nesting of blob:,
+   any Host::parse_opaque - the ASCII serialization of the tuple origin of the parse result parses back to a URL
+   with that origin.  Remaining premises: IdnaOK idna (C09 / C12) and a serialization shorter than 2^32. *)
+Theorem C16_rt_parsed_model : forall dbg idna ho input u c o c',
+  C09_Host.IdnaOK idna ->
+  url_parse dbg (Host.host_parse idna) ho Host.host_display input = POk u ->
+  url_origin dbg (Host.host_parse idna) ho Host.host_display c u = OOk o c' -> is_tuple o = true ->
+  nlen (ascii_serialization Host.host_display o) < U32_MAX_P ->
+  exists w, url_parse dbg (Host.host_parse idna) ho Host.host_display (ascii_serialization Host.host_display o) = POk w
+            /\ url_origin dbg (Host.host_parse idna) ho Host.host_display c' w = OOk o c'.
+Proof. exact rt_parsed_model. Qed.
+Check C16_rt_parsed_model : forall dbg idna ho input u c o c',
+  C09_Host.IdnaOK idna ->
+  url_parse dbg (Host.host_parse idna) ho Host.host_display input = POk u ->
+  url_origin dbg (Host.host_parse idna) ho Host.host_display c u = OOk o c' -> is_tuple o = true ->
+  nlen (ascii_serialization Host.host_display o) < U32_MAX_P ->
+  exists w, url_parse dbg (Host.host_parse idna) ho Host.host_display (ascii_serialization Host.host_display o) = POk w
+            /\ url_origin dbg (Host.host_parse idna) ho Host.host_display c' w = OOk o c'.
+Print Assumptions C16_rt_parsed_model.
 
 (* non-vacuity: the whole chain executed inside Coq (real parser model, stand-in host functions that
    keep a domain as it is).  https://example.com:8443/x has the tuple origin (https, example.com, 8443),
@@ -309,3 +516,23 @@ Example C16_premises_hold :
   /\ origin_of_text 0 t_ws_h = Some (OOk (Tuple s_ws (HDomain [104]) 80) 0)
   /\ origin_eqb (Tuple s_http (HDomain [104]) 80) (Tuple s_ws (HDomain [104]) 80) = false.
 Proof. exact examples. Qed.
+
+(* non-vacuity of the theorems added with C16_fuel / C16_rt_bracket: blob:blob:https://h:443/x (4 ':') parses to a
+   blob URL whose path blob:https://h:443/x has 3; the host model writes Ipv6(::1) as [::1] (bracketed), so
+   (https, ::1, 8443) serializes to https://[::1]:8443, and (http, 2001:db8::1:0:0:1, 80) to
+   http://[2001:db8::1:0:0:1] - the inputs of C16_rt_ipv6_model. *)
+Example C16_premises_hold_2 :
+  (exists v, toy_parse t_blob_blob_https_h_443_x = POk v /\ scheme v = Some s_blob
+             /\ path v = Some t_blob_https_h_443_x
+             /\ count58 t_blob_https_h_443_x = 3%nat /\ count58 t_blob_blob_https_h_443_x = 4%nat)
+  /\ Host.host_display (HIpv6 [0; 0; 0; 0; 0; 0; 0; 1]) = [91; 58; 58; 49; 93]
+  /\ ascii_serialization Host.host_display (Tuple s_https (HIpv6 [0; 0; 0; 0; 0; 0; 0; 1]) 8443)
+     = [104; 116; 116; 112; 115; 58; 47; 47; 91; 58; 58; 49; 93; 58; 56; 52; 52; 51]
+  /\ ascii_serialization Host.host_display (Tuple s_http (HIpv6 [8193; 3512; 0; 0; 1; 0; 0; 1]) 80)
+     = [104; 116; 116; 112; 58; 47; 47; 91; 50; 48; 48; 49; 58; 100; 98; 56; 58; 58; 49; 58; 48; 58; 48; 58; 49; 93].
+Proof. exact (conj colons_example ipv6_texts). Qed.
+
+(* the premise IdnaOK of C16_rt_parsed_model is satisfiable: the identity on ASCII strings without denied
+   characters (so the premises of C16_rt_parsed hold for Host.host_parse idna_clean / Host.host_display) *)
+Example C16_premises_hold_3 : C09_Host.IdnaOK idna_clean.
+Proof. exact idna_clean_ok. Qed.
